@@ -247,6 +247,9 @@ let common_checks ?(idx = -1) (info : nodeinfo) (before : snap option) (after : 
         if is_owner_known i then begin
           let l = ledger_of i in
           check "C03" (c03_ok l c) ("copy of " ^ token_of_id i ^ " holds an entry its owner never wrote, or runs ahead");
+          (* C05, second sentence: the owner is always the most advanced copy of its own state *)
+          check "C05" (not (nless (ledger_max l) c.c_max))
+            ("the copy of " ^ token_of_id i ^ " held by a node is ahead of the max version its owner has reached (the owner must be the most advanced copy of its own state)");
           (match Hashtbl.find_opt owner_hb (token_of_id i) with
            | Some h -> check "C03" (not (nless h c.c_hb)) ("recorded heartbeat of " ^ token_of_id i ^ " exceeds the owner's")
            | None -> ());
@@ -759,7 +762,16 @@ let on_catchup ?member ?supplied (idx : int) (obs : string) : unit =
                 check "C18" (unchanged || replaced)
                   ("after a catch-up the copy of " ^ token_of_id m ^ " is neither unchanged nor the supplied key set (with the newer version of common keys kept)");
                 check "C18" (nless cb.c_gc ca.c_gc || (neq cb.c_gc ca.c_gc && not (nless ca.c_max cb.c_max)))
-                  ("a catch-up lowered the (watermark, max version) of " ^ token_of_id m)
+                  ("a catch-up lowered the (watermark, max version) of " ^ token_of_id m);
+                (* C04 across a catch-up: the frontier does not go back and a key that survives keeps a
+                   version at least as large (C18_catchup_spec: the merge keeps the newer of two entries) *)
+                check "C04" (nless cb.c_gc ca.c_gc || (neq cb.c_gc ca.c_gc && not (nless ca.c_max cb.c_max)))
+                  ("a catch-up lowered the (watermark, max version) of " ^ token_of_id m);
+                check "C04"
+                  (List.for_all
+                     (fun (k, (old : vv)) -> match kget k ca.c_kvs with Some a -> not (nless a.v_ver old.v_ver) | None -> true)
+                     cb.c_kvs)
+                  ("a catch-up lowered the stored version of a key of " ^ token_of_id m ^ " that it kept")
             | _ -> ())
        | _ -> ());
       (match member with
